@@ -5,7 +5,7 @@
 
   Python                                                 model
   -----------------------------------------------------  ---------------------------------------
-  LOCALS (P, PP, Sum, Q, One, Zero, the variable names)   eval (.kw _), eval (.name _)
+  LOCALS (P, PP, Sum, Q, One, Zero, TARGET_DOMAIN, names)  eval (.kw _), eval (.name _)
   Variable.__pos__/__neg__/__invert__ (+ CF overrides)    unop
   Variable/CounterfactualVariable.intervene (`@`)         varIntervene
   Distribution.intervene / joint / given (`@ & |`)        distIntervene / andOp / orOp
@@ -422,6 +422,7 @@ def eval : Ast → E Val
   | .kw .Q => .ok .qClass
   | .kw .One => .ok .oneClass
   | .kw .Zero => .ok .zeroClass
+  | .kw .TargetDomain => .ok (.var Print.targetDomain)
   | .tuple xs => do pure (.tuple (← evalList xs))
   | .un op a => do unop op (← eval a)
   | .bin op l r => do
@@ -562,6 +563,7 @@ def names : Ast → List Name
   | .bin .band a b => names a ++ names b
   | .bin _ _ _ => []
   | .tuple xs => namesL xs
+  | .kw .TargetDomain => [Print.targetName]
   | .kw _ => []
   | .call _ _ => []
   | .sub _ _ => []
